@@ -5,6 +5,7 @@ import (
 	"go/ast"
 	"go/token"
 	"go/types"
+	"regexp"
 	"sort"
 	"strings"
 
@@ -183,10 +184,34 @@ type frameFact struct {
 	except     smt.Term // optional: reference whose contents may change
 }
 
+var boundVarRe = regexp.MustCompile(`(^|[ (])q_[A-Za-z0-9_]+![0-9]+`)
+
+// hasBoundVar reports whether a term mentions a quantifier-bound variable of a spec (named q_<name>!<n>).
+func hasBoundVar(t smt.Term) bool { return strings.Contains(t.S, "q_") && boundVarRe.MatchString(t.S) }
+
 // instFrames adds the ground instances of the recorded frame facts for a read
 // of heap key at reference r.
 func (fv *funcVerifier) instFrames(key string, r smt.Term) {
 	if len(fv.frameFacts) == 0 {
+		return
+	}
+	if hasBoundVar(r) {
+		// the reference mentions a quantifier-bound variable of a spec: a ground
+		// instance would capture it; add the (already established) quantified fact instead
+		mk := key + "@<quantified>"
+		start := fv.frameInst[mk]
+		if start >= len(fv.frameFacts) {
+			return
+		}
+		fv.frameInst[mk] = len(fv.frameFacts)
+		for _, f := range fv.frameFacts[start:] {
+			if f.key != key {
+				continue
+			}
+			q := smt.Term{S: "fr_q", Sort: smt.Int}
+			fv.assumeGlobal(smt.Implies(f.guard, smt.Forall([]smt.Term{q}, smt.Implies(smt.And(smt.Ge(q, smt.IntLit(0)), smt.Le(q, f.f0)),
+				smt.Eq(smt.Select(f.fresh, q), smt.Select(f.old, q))))))
+		}
 		return
 	}
 	mk := key + "@" + r.S
@@ -537,7 +562,7 @@ func (fv *funcVerifier) execRange(st *State, x *ast.RangeStmt, label string) {
 	}
 	keyVar, valVar = defVar(x.Key), defVar(x.Value)
 
-	var n smt.Term           // iteration count for indexable ranges
+	var n smt.Term // iteration count for indexable ranges
 	var elemAt func(s *State, i smt.Term) smt.Term
 	var elemT types.Type
 	kind := ""
